@@ -20,7 +20,7 @@ use serde_json::json;
 use std::panic::AssertUnwindSafe;
 
 pub const HEADER: &str =
-    "From CC Require Import Base.Prelude Base.Scalar Model.Adder Model.Mux Model.Clip Model.LongDiv Model.C17Tie.";
+    "From CC Require Import Base.Prelude Base.Scalar Base.Ty Base.Shape Graph.Value Graph.IR Graph.Eval Model.Adder Model.Mux Model.Clip Model.LongDiv Model.C17Tie Model.GraphTiesAdd.";
 
 // ------------------------------------------------------------------------------------ plumbing
 fn mask(w: u32) -> u128 {
@@ -697,7 +697,40 @@ fn run_div(tier: &str, rng: &mut Rng, out: &mut Out) {
     }
 }
 
+/// T-tie: the real instantiated + inlined BinaryAdd graph, exported, evaluated inside Coq on ALL
+/// operand pairs of width `w` and compared with the proved adder model (Model/GraphTiesAdd.v).
+fn adder_graph_exhaustive(ob: bool, w: u32, out: &mut Out) {
+    use ciphercore_base::inline::inline_ops::{inline_operations, InlineConfig, InlineMode};
+    let r = (|| -> ciphercore_base::errors::Result<(ciphercore_base::graphs::Context, ciphercore_base::graphs::Graph, u64, u64, u64)> {
+        let c = simple_context(|g| {
+            let a = g.input(array_type(vec![w as u64], BIT))?;
+            let b = g.input(array_type(vec![w as u64], BIT))?;
+            g.custom_op(CustomOperation::new(BinaryAdd { overflow_bit: ob }), vec![a, b])
+        })?;
+        let inst = run_instantiation_pass(c)?;
+        let inl = inline_operations(&inst.get_context(), InlineConfig { default_mode: InlineMode::Simple, ..Default::default() })?;
+        let kc = inl.get_context();
+        let mg = kc.get_main_graph()?;
+        let ins: Vec<u64> = mg.get_nodes().iter().filter(|n| n.get_operation().is_input()).map(|n| n.get_id()).collect();
+        let oid = mg.get_output_node()?.get_id();
+        Ok((kc, mg, ins[0], ins[1], oid))
+    })();
+    let desc = json!({"op": "BinaryAdd", "overflow_bit": ob, "width": w});
+    match r {
+        Ok((_keep, mg, i0, i1, oid)) => {
+            out.stat_n("T:graph_nodes", mg.get_nodes().len() as u64);
+            out.case("T:graph_exhaustive", format!("graph_add_exhaustive {} {} {} {} {}%nat {}", crate::export::nodes_coq(&mg), i0, i1, oid, w, cb(ob)), "true".into(), desc, true);
+        }
+        Err(_) => out.stat("T:graph_rejected"),
+    }
+}
+
 pub fn run(tier: &str, seed: u64, out: &mut Out) {
+    for &w in if tier == "thorough" { &[1u32, 2, 4, 8][..] } else { &[1u32, 2, 4][..] } {
+        for &ob in &[false, true] {
+            adder_graph_exhaustive(ob, w, out);
+        }
+    }
     let mut rng = Rng::new(seed ^ 0xC17);
     run_mux(tier, &mut rng, out);
     run_adder(tier, &mut rng, out);
